@@ -101,6 +101,17 @@ def ret1_rule(prog, rep):
                       "%s returns `%s` of shape %s, not one of %s (e.g. a pass-through keeps foreign types / sub-second parts)"
                       % (name, unparse(r)[:70] if r is not None else "None", sorted(ts), list(allowed)), where(f, rn.ast),
                       witness="a datetime with microseconds / a str for dtype int is stored as is")
+    # str_get: emptiness is membership in (None, '', [], {}) - a truthiness test would turn the numbers 0 and 0.0 into ''
+    from ..astutil import truthiness_tests
+    sg = dmod.functions.get("str_get")
+    for h in private_closure(sg):
+        for n in ast.walk(h.node):
+            for t0 in ([n.test] if isinstance(n, (ast.If, ast.IfExp, ast.While)) else []):
+                for txt, pol, e0 in truthiness_tests(t0):
+                    if isinstance(e0, ast.Name) and e0.id in h.params:
+                        rep.fail("RET-1", "%s|truthiness of %s" % (h.short, e0.id), "%s decides by the truthiness of `%s` what counts as empty: 0 and 0.0 "
+                                 "are falsy and come out as the default ''" % (h.short, e0.id), where(h, n),
+                                 witness="non strict merge of an int Property holding 0 into a string Property: '' instead of '0'")
     # int_get: the detour over float() is the fall back for text that int() refused, never the way an exact integer takes
     ig = dmod.functions.get("int_get")
     for h in private_closure(ig):
